@@ -187,6 +187,15 @@ Verdict judgeMisc(const Case& c) {
     Path64 r = TranslatePath(p, dx, dy);
     if (r.size() != p.size()) { v.fail("TranslatePath changed the number of points"); return v; }
     for (size_t k = 0; k < p.size(); ++k) if (r[k].x != p[k].x + dx || r[k].y != p[k].y + dy) { v.fail("TranslatePath wrong at index " + std::to_string(k)); return v; }
+    // the Paths and the PathD forms obey the same equation
+    Paths64 rr = TranslatePaths(Paths64{p, Path64{Point64(1, 2)}, Path64()}, dx, dy);
+    if (rr.size() != 3 || rr[0] != r || rr[1] != Path64{Point64(1 + dx, 2 + dy)} || !rr[2].empty()) { v.fail("TranslatePaths differs from TranslatePath applied to each path"); return v; }
+    if (std::llabs(dx) < (int64_t(1) << 50) && std::llabs(dy) < (int64_t(1) << 50)) {
+      PathD pd; for (auto& q : p) pd.emplace_back((double)(q.x % (int64_t(1) << 50)), (double)(q.y % (int64_t(1) << 50)));
+      PathD rd = TranslatePath(pd, (double)dx, (double)dy);
+      if (rd.size() != pd.size()) { v.fail("TranslatePath(PathD) changed the number of points"); return v; }
+      for (size_t k = 0; k < pd.size(); ++k) if (rd[k].x != pd[k].x + (double)dx || rd[k].y != pd[k].y + (double)dy) { v.fail("TranslatePath(PathD) wrong at index " + std::to_string(k)); return v; }
+    }
   }
   // Length, GetBounds
   {
